@@ -1383,7 +1383,7 @@ def make_swarm(rng, prop, run_cfg):
             # carries 15 digits - the stated numeric assumption of the other workloads)
             sw["nonround"] = True
             sw["restart_formats"] = [f for f in sw["restart_formats"] if f != "pickle"] or ["json"]
-            for k in ("copy", "deepcopy", "pickle", "merge"):
+            for k in ("copy", "deepcopy", "pickle", "merge", "prune"):
                 weights.pop(k, None)
     if not weights:
         weights = {"set_bounds": 1}
